@@ -1372,6 +1372,10 @@ OPNMIDI_EXPORT int opn2_setTrackOptions(struct OPN2_MIDIPlayer *device, size_t t
     unsigned enableFlag = trackOptions & 3;
     trackOptions &= ~3u;
 
+    // reject unknown options before anything is changed
+    if(trackOptions != 0)
+        return -1;
+
     // handle on/off/solo
     switch(enableFlag)
     {
